@@ -30,6 +30,7 @@ func init() {
 			{ID: "C14.8", Desc: "Set can create its temporary file for every key (its name does not extend the entry's file name)", Run: func(c *Ctx) { ruleC15_1(c); renameRule(c, "C15.1", "C14.8") }, MinSites: 1},
 			{ID: "C14.7", Desc: "a file name returned as one path component is bounded by the file-name limit", Run: ruleC14_7, MinSites: 1},
 			{ID: "C14.10", Desc: "every key has a file name: the namer returns a text derived from the key only where it was tested to be non-empty (the empty key gets a name of its own)", Run: ruleC14_10, MinSites: 1},
+			{ID: "C14.11", Desc: "a Set or Delete that failed with a timeout does not change the map later", Run: func(c *Ctx) { ruleAbandonedNotPublished(c, "C14.11") }, MinSites: 1},
 		},
 	})
 }
